@@ -95,6 +95,70 @@ fn dcs_mt(input: &[V]) -> Vec<V> {
     vec![n as V, all.len() as V, mono]
 }
 
+/// C19 receiver under real threads: input = [threads, ids, stride, jitter_seed];
+/// every thread offers every id of 0, stride, 2*stride, ... (ids values) to one shared receiver,
+/// each thread in its own slightly shuffled order; output:
+/// [offers, ids accepted more than once, ids accepted exactly once, largest accept count]
+fn dcr_mt(input: &[V]) -> Vec<V> {
+    let mut c = Cur::new(input);
+    let threads = c.usize().clamp(1, 16);
+    let n = c.usize().min(200_000);
+    let stride = c.u64().max(1);
+    let seed = c.u64();
+    let st = std::sync::Arc::new(receiver::State::new());
+    let counts: std::sync::Arc<Vec<std::sync::atomic::AtomicU32>> =
+        std::sync::Arc::new((0..n).map(|_| std::sync::atomic::AtomicU32::new(0)).collect());
+    let barrier = std::sync::Arc::new(std::sync::Barrier::new(threads));
+    let mut hs = vec![];
+    for t in 0..threads {
+        let st = st.clone();
+        let counts = counts.clone();
+        let barrier = barrier.clone();
+        hs.push(std::thread::spawn(move || {
+            let mut x = seed.wrapping_add(t as u64).wrapping_mul(0x9e3779b97f4a7c15) | 1;
+            barrier.wait();
+            let mut i = 0usize;
+            while i < n {
+                // process a small block in a thread-specific order
+                x ^= x << 13;
+                x ^= x >> 7;
+                x ^= x << 17;
+                let blk = 1 + (x % 4) as usize;
+                let end = (i + blk).min(n);
+                let rev = (x >> 8) & 1 == 1;
+                for k in 0..(end - i) {
+                    let j = if rev { end - 1 - k } else { i + k };
+                    let creds = Credentials {
+                        id: Id::from([7u8; 16]),
+                        key_id: VarInt::new(j as u64 * stride).unwrap(),
+                    };
+                    if st.post_authentication(&creds).is_ok() {
+                        counts[j].fetch_add(1, std::sync::atomic::Ordering::Relaxed);
+                    }
+                }
+                i = end;
+            }
+        }));
+    }
+    for h in hs {
+        h.join().unwrap();
+    }
+    let mut multi = 0;
+    let mut once = 0;
+    let mut mx = 0;
+    for c in counts.iter() {
+        let v = c.load(std::sync::atomic::Ordering::Relaxed);
+        if v > 1 {
+            multi += 1;
+        }
+        if v == 1 {
+            once += 1;
+        }
+        mx = mx.max(v);
+    }
+    vec![(n * threads) as V, multi, once, mx as V]
+}
+
 fn main() {
-    main_with(&[("dcr", dcr), ("dcs", dcs), ("dcs_mt", dcs_mt)]);
+    main_with(&[("dcr", dcr), ("dcs", dcs), ("dcs_mt", dcs_mt), ("dcr_mt", dcr_mt)]);
 }
